@@ -2,7 +2,8 @@
 //!
 //! The observation carries the bit patterns of H and Q; the property's oracle (exact rationals from
 //! those bits: QᵀQ = I, Q H Qᵀ = A, zeros below the first sub-diagonal, n ≤ 2 unchanged) lives in
-//! tools/props/c14.py.  The only verdicts decided here are the ones about the outcome kind.
+//! tools/props/c14.py.  The verdicts decided here are the ones about the outcome kind, plus: the borrowed input is
+//! unchanged after the call and a second call on it returns the same bits (no state between calls).
 use crate::util::*;
 use spindalis::reduction::matrix::hessenberg_reduction;
 use spindalis::solvers::SolverError;
@@ -38,8 +39,24 @@ pub fn run(line: &str) -> Obs {
     match catch(|| hessenberg_reduction(&a)) {
         None => Obs::with("panic".into(), Err("hessenberg_reduction panicked".into())),
         Some(Ok((hm, q))) => {
-            let verdict = if h != w { Err(format!("non-square {h}x{w} input accepted")) } else { Ok(()) };
-            Obs::with(format!("ok {} {}", show(&hm), show(&q)), verdict)
+            let first = format!("ok {} {}", show(&hm), show(&q));
+            // the input is borrowed: it must still be what was passed, and a second call on it must give the same
+            // bits (no state carried from one call to the next)
+            let untouched = (0..h).all(|i| (0..w).all(|j| a[(i, j)].to_bits() == v[i * w + j].to_bits()));
+            let again = match catch(|| hessenberg_reduction(&a)) {
+                Some(Ok((h2, q2))) => format!("ok {} {}", show(&h2), show(&q2)),
+                _ => "different outcome".into(),
+            };
+            let verdict = if h != w {
+                Err(format!("non-square {h}x{w} input accepted"))
+            } else if !untouched {
+                Err("the borrowed input matrix was modified".into())
+            } else if again != first {
+                Err("a second call on the same input returned a different result".into())
+            } else {
+                Ok(())
+            };
+            Obs::with(first, verdict)
         }
         Some(Err(SolverError::NonSquareMatrix)) => {
             let verdict = if h == w { Err(format!("square {h}x{w} input rejected")) } else { Ok(()) };
@@ -174,7 +191,7 @@ fn family(rng: &mut Rng, n: usize, kind: u64) -> Vec<f64> {
                 }
             }
         }
-        _ => {
+        9 => {
             // a single non-zero below the diagonal in each column (permutation-like)
             for j in 0..n {
                 let keep = if j + 1 < n { j + 1 + rng.below((n - j - 1) as u64) as usize } else { n };
@@ -185,9 +202,63 @@ fn family(rng: &mut Rng, n: usize, kind: u64) -> Vec<f64> {
                 }
             }
         }
+        10 | 11 => {
+            // graded, nearly reduced columns: the tail of the sub-column is 10^-e (kind 10) or exactly 2^-k (kind 11,
+            // k around 26: sqrt(head^2 + tail^2) rounds to |head|, or misses it by one ulp) of its head, both signs of
+            // the head.  The columns before the first graded one are exactly reduced (skipped: identity steps), so
+            // the graded column reaches its step with exactly the entries chosen here.  A skip test that also fires
+            // when the computed norm equals |head| leaves these tails (far above n u |A|) in H.
+            if n >= 3 {
+                let j0 = rng.below((n - 2) as u64) as usize;
+                for j in 0..j0 {
+                    for i in j + 2..n {
+                        a[at(i, j)] = 0.0;
+                    }
+                }
+                let all_later = rng.chance(1, 2);
+                for j in j0..n - 2 {
+                    if j > j0 && !(all_later || rng.chance(1, 3)) {
+                        continue;
+                    }
+                    let mag = match rng.below(4) {
+                        0 => 1.0,
+                        1 => rng.uniform(0.5, 8.0),
+                        2 => 2f64.powi(rng.range(-20, 20) as i32),
+                        _ => rng.range(1, 9) as f64,
+                    };
+                    let head = if rng.chance(1, 2) { -mag } else { mag };
+                    a[at(j + 1, j)] = head;
+                    let single = rng.chance(1, 3);
+                    let pos = j + 2 + rng.below((n - j - 2) as u64) as usize;
+                    let rel = if kind == 10 {
+                        10f64.powi(-*rng.pick(&[6, 7, 8, 9, 9, 10, 11, 12, 12, 14, 16, 20, 30, 100, 170]))
+                    } else {
+                        2f64.powi(-(rng.range(20, 30) as i32))
+                    };
+                    for i in j + 2..n {
+                        let t = if kind == 10 { rel * rng.uniform(0.5, 1.0) } else { rel };
+                        let sg = if rng.chance(1, 2) { -1.0 } else { 1.0 };
+                        a[at(i, j)] = if single && i != pos { 0.0 } else { sg * t * mag };
+                    }
+                }
+            }
+        }
+        _ => {
+            // graded matrix D A D^-1 with D = diag(2^(g i)): entries of very different sizes in one matrix
+            // (exact scaling, so the quantities the code compares are the same up to powers of two)
+            let gs: Vec<i32> = [-12i32, -5, -2, 2, 5, 12].iter().cloned().filter(|g| g.abs() as usize * n <= 100).collect();
+            let g = if gs.is_empty() { 1 } else { *rng.pick(&gs) };
+            for i in 0..n {
+                for j in 0..n {
+                    a[at(i, j)] *= 2f64.powi(g * (i as i32 - j as i32));
+                }
+            }
+        }
     }
     a
 }
+
+const KINDS: u64 = 13;
 
 pub fn generate(seed: u64, thorough: bool, emit: &mut dyn FnMut(String)) {
     let mut rng = Rng::new(seed ^ 0xC14);
@@ -204,23 +275,52 @@ pub fn generate(seed: u64, thorough: bool, emit: &mut dyn FnMut(String)) {
         let v: Vec<f64> = (0..h * w).map(|_| entry(&mut rng, 0)).collect();
         emit_mat(emit, h, w, &v);
     }
-    // every family at every size, unscaled and scaled
-    let reps = if thorough { 1000 } else { 12 };
+    // every family at every size, unscaled and scaled.  The statement's bounds are relative to |A|, so every scale
+    // at which neither the squares of the entries nor their sums leave the binary64 range is inside it: 2^+-40 as
+    // in the quantifier, and far beyond (2^-70, 2^60, 2^+-200, 2^+-300, 2^+-450, random) for thresholds in absolute units
+    let reps = if thorough { 800 } else { 12 };
     for n in 0..=10usize {
-        for kind in 0..10u64 {
+        for kind in 0..KINDS {
             for r in 0..reps {
                 let mut a = family(&mut rng, n, kind);
-                match r % 4 {
-                    1 => scale(&mut a, 40),
-                    2 => scale(&mut a, -40),
-                    3 => {
-                        let e = rng.range(-40, 40) as i32;
-                        scale(&mut a, e)
-                    }
-                    _ => {}
-                }
+                rescale(&mut rng, &mut a, r, kind != 12);
                 emit_mat(emit, n, n, &a);
             }
         }
+    }
+    // sizes just beyond: every n = 11..40 (blocked / unrolled loops of 4, 8, 16; "the 9th element" is covered above)
+    let per_n = if thorough { 3 * KINDS as usize } else { 3 };
+    for n in 11..=40usize {
+        for r in 0..per_n {
+            let kind = if thorough { (r as u64) % KINDS } else { *rng.pick(&[0u64, 0, 1, 3, 5, 6, 10, 10, 11, 12]) };
+            let mut a = family(&mut rng, n, kind);
+            rescale(&mut rng, &mut a, r + n, kind != 12);
+            emit_mat(emit, n, n, &a);
+        }
+    }
+}
+
+/// `extreme`: the entries are within 2^-24..2^24 of 1, so 2^+-450 keeps every square and sum of squares in range
+fn rescale(rng: &mut Rng, a: &mut [f64], r: usize, extreme: bool) {
+    match r % 12 {
+        1 => scale(a, 40),
+        2 => scale(a, -40),
+        3 => {
+            let e = rng.range(-40, 40) as i32;
+            scale(a, e)
+        }
+        5 => scale(a, 60),
+        6 => scale(a, -70),
+        7 => {
+            let e = rng.range(-300, 300) as i32;
+            scale(a, e)
+        }
+        9 => scale(a, *rng.pick(&[200, 300, -200, -300])),
+        10 => {
+            let e = rng.range(-120, 120) as i32;
+            scale(a, e)
+        }
+        11 if extreme => scale(a, if rng.chance(1, 2) { -450 } else { 450 }),
+        _ => {}
     }
 }
